@@ -1,6 +1,6 @@
 # executed by tools_manifest.py
 PENDING.update({k: 'check not built yet in this commit (claimed in DESIGN.md section 4; will move to checks when its machinery lands)'
-                for k in ['C01', 'C08', 'C10', 'C11', 'C12', 'C13', 'C17']})
+                for k in ['C01', 'C10', 'C11', 'C12', 'C13', 'C17']})
 
 check('C09', 'fault_enumeration',
       'For every sampled experiment configuration the complete single-crash space (after every mutating file-system effect x every '
@@ -37,3 +37,13 @@ check('C02', 'exploration',
       'Sampling, not enumeration. Forced host CPU devices stand in for accelerators; pre-emption granularity is a source line.',
       'deterministic simulation: seeded thread scheduler (baton passing + settrace pre-emption) and seeded generator-task scheduler with fault injection; refinement against a sequential reference fold',
       'DESIGN.md 2.4, 4 (C02)')
+
+check('C08', 'exploration',
+      'Seeded histories of view operations (nested slices with adversarial bounds, subsets, preprocessor chains, point/bulk reads) with '
+      'iterator tasks on the shared SQLite connection advanced in a PRNG-chosen interleaving and abandoned midway; after every operation '
+      'every implementation (in-memory, SQLite over a real file written by the real builder, subset over both) of the new view and of its '
+      'parent is compared bit-for-bit with a dict-based reference model through every access path. Sampling over datasets and histories.',
+      'Trusts sqlite3 and the reference model (a Python dict plus predicate and function lists); iteration order across implementations is '
+      'not compared, shuffled_clients on an empty view is not called.',
+      'deterministic simulation: seeded history machine with an interleaving scheduler over lazy iterator tasks; operation-by-operation comparison with a reference model',
+      'DESIGN.md 2.4, 4 (C08)')
